@@ -1,4 +1,5 @@
 import HapVerif.Lemmas.C13
+import HapVerif.Lemmas.C13Dur
 import HapVerif.Generated.Facts
 /-!
 # C13 — rate limits: spacing, coalescing, liveness
@@ -7,6 +8,12 @@ Model: `HapVerif.C13.simulate lim evs` — the real limiter functions (`reloadWh
 `ingressWhen`) driving client-go's delaying queue ("earliest deadline per item").
 Arrival patterns `evs : List (time × item)` are arbitrary (any length, any gaps), sorted
 by time.  `item = false/true` is partial/full reconciliation; the reload queue uses one item.
+
+Second part (section "Run durations, one worker, `Forget`"): `HapVerif.C13.simulateD lim forget durs evs` —
+the same limiter and delaying queue feeding client-go's base queue (dirty / processing sets, FIFO) and the
+ONE worker of `WorkQueue.process`, which is occupied for `durs[k]` by its `k`-th run and then calls the
+limiter's `Forget` (parameter `forget`; `forgetId` = the code that exists) and `Done`.  The observable is
+the list of run STARTS.  `simulate` is the special case of instantaneous runs (`simulateD_zero`).
 -/
 namespace HapVerif.C13
 
@@ -230,5 +237,170 @@ theorem facts_c13 :
 example : simulate (reloadWhen 10) [(0, false), (5, false), (11, false)] = [(0, false), (10, false), (20, false)] := by decide
 example : simulate (reloadWhen 10) [(0, false), (5, false), (7, false), (11, false)] = [(0, false), (10, false), (20, false)] := by decide
 example : Sorted 0 [(0, false), (5, true), (11, false)] := by simp [Sorted]
+
+/-! ## Run durations, one worker, `Forget` -/
+
+theorem runAllD_sinv {δ w : Int} (hδ : 0 < δ) (hw : 0 ≤ w) (b0 : Bool) :
+    ∀ (evs : List (Int × Bool)) (s : StD) (c : Int) (done : List (Int × Bool)),
+      SInv δ w b0 s c done → Sorted c evs → (∀ e, e ∈ evs → e.2 = b0) →
+      ∃ c', SInv δ w b0 (evs.foldl (fun s e => arriveD (ingressWhen δ w) forgetId s e.1 e.2) s) c' (evs.reverse ++ done) := by
+  intro evs
+  induction evs with
+  | nil => intro s c done h _ _; exact ⟨c, by simpa using h⟩
+  | cons e es ih =>
+    intro s c done h hs hk
+    obtain ⟨h1, h2⟩ := hs
+    obtain ⟨t, b⟩ := e
+    have hb : b = b0 := hk (t, b) List.mem_cons_self
+    subst hb
+    have := arriveD_sinv h h1 hδ hw
+    obtain ⟨c', hc'⟩ := ih _ _ _ this h2 (fun x hx => hk x (List.mem_cons_of_mem _ hx))
+    refine ⟨c', ?_⟩
+    simpa [List.foldl_cons, List.reverse_cons, List.append_assoc] using hc'
+
+/-- **runs with a duration = the instantaneous model** (one kind of item, every run shorter than the
+interval): for EVERY arrival pattern of one kind `b0` (the reload queue has a single item) and EVERY
+assignment of run durations `d < δ` (`d ≤ 0` is an instantaneous run), the run STARTS of the single worker
+are exactly the runs of `simulate`: the previous run has always ended when the next one is due, nothing is
+ever re-queued at `Done`, `Forget` (a no-op in the code that exists) changes nothing. -/
+theorem simulateD_single {δ w : Int} (hδ : 0 < δ) (hw : 0 ≤ w) (c : Int) (evs : List (Int × Bool))
+    (hs : Sorted c evs) (b0 : Bool) (hk : ∀ e, e ∈ evs → e.2 = b0)
+    (durs : List Int) (hd : ∀ d, d ∈ durs → d < δ) :
+    simulateD (ingressWhen δ w) forgetId durs evs = simulate (ingressWhen δ w) evs := by
+  have h0 : SInv δ w b0 ({ durs := durs } : StD) c [] :=
+    ⟨inv_init δ w c, rfl, ⟨rfl, rfl, rfl, Or.inl rfl, hd⟩⟩
+  obtain ⟨c', h1⟩ := runAllD_sinv hδ hw b0 evs _ c [] h0 hs hk
+  unfold simulateD simulate runAllD
+  rw [flushD_starts h1, foldl_arriveD_q]
+  rfl
+
+/-- **spacing of reload STARTS** — for every arrival pattern and every assignment of reload durations
+`d < --reload-interval`, two reload starts are never closer than `--reload-interval`.
+Assumption on `d` (stated in the registry): each reload is shorter than the interval. For `d ≥ interval` the
+statement is FALSE for the code that exists, see `long_run_breaks_spacing`. -/
+theorem reload_spacing_dur {i : Int} (hi : 0 < i) (c : Int) (evs : List (Int × Bool)) (hs : Sorted c evs)
+    (b0 : Bool) (hk : ∀ e, e ∈ evs → e.2 = b0) (durs : List Int) (hd : ∀ d, d ∈ durs → d < i) (b : Bool) :
+    (runsOf b (simulateD (reloadWhen i) forgetId durs evs)).Pairwise (fun a r => a + i ≤ r) := by
+  rw [reloadWhen_eq, simulateD_single hi (Int.le_refl 0) c evs hs b0 hk durs hd, ← reloadWhen_eq]
+  exact reload_spacing hi c evs hs b
+
+/-- **liveness with durations** — every notification `(t, b)` is followed by a reload START at some `r ≥ t`
+that is either immediate or exactly one interval after an earlier start: a reload shorter than the interval is
+over when the next one is due, so the start is never delayed by the run in progress (`r ≤ max (t, p + i)`,
+and the end `p + d` of the run in progress is `< p + i`). -/
+theorem reload_liveness_dur {i : Int} (hi : 0 < i) (c : Int) (evs : List (Int × Bool)) (hs : Sorted c evs)
+    (b0 : Bool) (hk : ∀ e, e ∈ evs → e.2 = b0) (durs : List Int) (hd : ∀ d, d ∈ durs → d < i)
+    (t : Int) (b : Bool) (hm : (t, b) ∈ evs) :
+    ∃ r, (r, b) ∈ simulateD (reloadWhen i) forgetId durs evs ∧ t ≤ r ∧
+      (r ≤ t ∨ ∃ p b', (p, b') ∈ simulateD (reloadWhen i) forgetId durs evs ∧ r = p + i) := by
+  rw [reloadWhen_eq, simulateD_single hi (Int.le_refl 0) c evs hs b0 hk durs hd, ← reloadWhen_eq]
+  exact reload_liveness hi c evs hs t b hm
+
+/-- the same three for reconciliations of ONE kind (partial only or full only) with run durations
+`d < 1/rate-limit-update` -/
+theorem reconcile_spacing_dur {δ w : Int} (hδ : 0 < δ) (hw : 0 ≤ w) (c : Int) (evs : List (Int × Bool))
+    (hs : Sorted c evs) (b0 : Bool) (hk : ∀ e, e ∈ evs → e.2 = b0) (durs : List Int)
+    (hd : ∀ d, d ∈ durs → d < δ) (b : Bool) :
+    (runsOf b (simulateD (ingressWhen δ w) forgetId durs evs)).Pairwise (fun a r => a + δ ≤ r) := by
+  rw [simulateD_single hδ hw c evs hs b0 hk durs hd]
+  exact reconcile_spacing hδ hw c evs hs b
+
+theorem reconcile_liveness_dur {δ w : Int} (hδ : 0 < δ) (hw : 0 ≤ w) (c : Int) (evs : List (Int × Bool))
+    (hs : Sorted c evs) (b0 : Bool) (hk : ∀ e, e ∈ evs → e.2 = b0) (durs : List Int)
+    (hd : ∀ d, d ∈ durs → d < δ) (t : Int) (b : Bool) (hm : (t, b) ∈ evs) :
+    ∃ r, (r, b) ∈ simulateD (ingressWhen δ w) forgetId durs evs ∧ t ≤ r ∧
+      (r ≤ t + w ∨ ∃ p b', (p, b') ∈ simulateD (ingressWhen δ w) forgetId durs evs ∧ r = p + δ) := by
+  rw [simulateD_single hδ hw c evs hs b0 hk durs hd]
+  exact reconcile_liveness hδ hw c evs hs t b hm
+
+/-- **d = 0 is the instantaneous model** — with instantaneous runs (every duration `≤ 0`, in particular
+no durations given) the run starts of each item are exactly the runs of `simulate`, for EVERY limiter and
+arrival pattern and both kinds of item (runs of different items at one instant may be listed in the other
+order: the delaying queue hands over its heap root first, `simulate` lists `false` first).  So the theorems
+above the line (`reconcile_spacing`, `reconcile_liveness`, `reconcile_coalesce`, …) are statements about
+`simulateD … (durations 0)`. -/
+theorem simulateD_zero (lim : Limiter) (durs : List Int) (hd : ∀ d, d ∈ durs → d ≤ 0)
+    (evs : List (Int × Bool)) (b : Bool) :
+    runsOf b (simulateD lim forgetId durs evs) = runsOf b (simulate lim evs) := by
+  have h0 : ZInv ({ durs := durs } : StD) := ⟨⟨rfl, rfl, hd⟩, fun _ => rfl⟩
+  have h1 := flushD_zinv _ (foldl_arriveD_zinv lim evs _ h0)
+  unfold simulateD simulate runAllD
+  rw [runsOf_rev, runsOf_rev, h1.2 b, flushD_q, foldl_arriveD_q]
+  rfl
+
+/-- both kinds of item, instantaneous runs: spacing transfers -/
+theorem reconcile_spacing_zero {δ w : Int} (hδ : 0 < δ) (hw : 0 ≤ w) (c : Int) (evs : List (Int × Bool))
+    (hs : Sorted c evs) (durs : List Int) (hd : ∀ d, d ∈ durs → d ≤ 0) (b : Bool) :
+    (runsOf b (simulateD (ingressWhen δ w) forgetId durs evs)).Pairwise (fun a r => a + δ ≤ r) := by
+  rw [simulateD_zero _ durs hd]
+  exact reconcile_spacing hδ hw c evs hs b
+
+/-- **no extra runs, whatever the durations** — for EVERY limiter, arrival pattern (both kinds of item) and
+assignment of run durations (also `d ≥ interval`): the worker never starts more runs of a kind than there
+were notifications of that kind (coalescing in the delaying queue, the dirty set and the FIFO never
+duplicates). This is the clause judged outside the `judged` domain. -/
+theorem no_extra_runs (lim : Limiter) (durs : List Int) (evs : List (Int × Bool)) (b : Bool) :
+    (runsOf b (simulateD lim forgetId durs evs)).length ≤ (runsOf b evs).length := by
+  have h0 : EInv ({ durs := durs } : StD) [] :=
+    ⟨⟨fun _ => rfl, fun b => by simp [cntW, runsOf]⟩, fun b => by simp [runsOf]⟩
+  have h1 := flushD_einv (foldl_arriveD_einv lim evs _ _ h0) b
+  unfold simulateD runAllD
+  rw [runsOf_rev, List.length_reverse]
+  simpa [runsOf_rev] using h1
+
+/-- link to the executable clause -/
+theorem noExtra_simulateD (lim : Limiter) (durs : List Int) (evs : List (Int × Bool)) (b : Bool) :
+    noExtra evs (simulateD lim forgetId durs evs) b = true := by
+  simpa [noExtra] using no_extra_runs lim durs evs b
+
+/-- **seeded variant C13e** (`Forget` re-bases `last` on the end of the run): a notification DURING a reload
+on two consecutive reloads (interval 10, reloads take 5): the scheduled slot 20 is forgotten, reloads start
+at 0, 10 and **15**. The code that exists (`forgetId`) starts them at 0, 10, 20. No tie is involved. -/
+theorem forget_now_breaks_spacing :
+    simulateD (reloadWhen 10) forgetNow [5, 5] [(0, false), (1, false), (11, false)]
+        = [(0, false), (10, false), (15, false)]
+    ∧ spaced 10 (runsOf false (simulateD (reloadWhen 10) forgetNow [5, 5] [(0, false), (1, false), (11, false)])) = false
+    ∧ simulateD (reloadWhen 10) forgetId [5, 5] [(0, false), (1, false), (11, false)]
+        = [(0, false), (10, false), (20, false)]
+    ∧ judged 10 [5, 5] [(0, false), (1, false), (11, false)] = true
+    ∧ (flushD forgetNow (runAllD (reloadWhen 10) forgetNow [5, 5] [(0, false), (1, false), (11, false)])).tie = false := by
+  decide
+
+/-- **observation on the code that exists, outside the property's quantifier (run durations)**: the FULL
+statement `reload_spacing_dur` without `d < i` is false. A reload longer than the interval (15 > 10): the
+item becomes ready at 10 while it is processed, is re-queued at `Done` and starts at 15, but the limiter's
+`last` is still 10, so the next notification (16) is scheduled for 20: starts 0, 15, **20**.
+Replayed on the real code: `C13 reloadd 10000000000 15000000000 0,1000000000,16000000000`. -/
+theorem long_run_breaks_spacing :
+    simulateD (reloadWhen 10) forgetId [15] [(0, false), (1, false), (16, false)]
+        = [(0, false), (15, false), (20, false)]
+    ∧ spaced 10 (runsOf false (simulateD (reloadWhen 10) forgetId [15] [(0, false), (1, false), (16, false)])) = false
+    ∧ judged 10 [15] [(0, false), (1, false), (16, false)] = false := by
+  decide
+
+/-- **observation on the code that exists, outside the property's quantifier (run durations)**: the two
+kinds of reconciliation share ONE worker and ONE limiter. Both are due at 10; the partial one runs first and
+takes 3, the full one starts at 13, and its next slot is still 20: full syncs start 7 apart (interval 10).
+`reconcile_spacing_dur` therefore needs "one kind" (or instantaneous runs, `reconcile_spacing_zero`).
+Replayed on the real code: `C13 ingressd 10000000000 0 0,3000000000 0:p,1000000000:p,2000000000:f,14000000000:f`. -/
+theorem other_kind_run_breaks_spacing :
+    simulateD (ingressWhen 10 0) forgetId [0, 3] [(0, false), (1, false), (2, true), (14, true)]
+        = [(0, false), (10, false), (13, true), (20, true)]
+    ∧ spaced 10 (runsOf true (simulateD (ingressWhen 10 0) forgetId [0, 3] [(0, false), (1, false), (2, true), (14, true)])) = false
+    ∧ judged 10 [0, 3] [(0, false), (1, false), (2, true), (14, true)] = false := by
+  decide
+
+/-- non-vacuity: the hypotheses of `simulateD_single` are satisfiable by a pattern in which a notification
+arrives while a reload is running, and the conclusion is not trivial (three starts) -/
+example : Sorted 0 [(0, false), (1, false), (11, false)] ∧ (∀ e, e ∈ [(0, false), (1, false), (11, false)] → e.2 = false)
+    ∧ (∀ d, d ∈ [5, 5] → d < (10 : Int)) := by
+  refine ⟨by simp [Sorted], by simp, by decide⟩
+example : simulateD (ingressWhen 10 0) forgetId [5, 5] [(0, false), (1, false), (11, false)]
+    = [(0, false), (10, false), (20, false)] := by decide
+/-- an item added while it is processed is re-queued at `Done` (dirty), another item waits in the FIFO -/
+example : simulateD (reloadWhen 10) forgetId [25] [(0, false), (1, false), (12, false)]
+    = [(0, false), (25, false)] := by decide
+example : simulateD (ingressWhen 10 0) forgetId [0, 7, 2] [(0, false), (1, true), (2, false)]
+    = [(0, false), (10, true), (17, false)] := by decide
 
 end HapVerif.C13
